@@ -97,6 +97,8 @@ func bindingOf(v ssa.Value, fn *ssa.Function, mc *ssa.MakeClosure) ssa.Value {
 func runC07(c *Ctx) {
 	p := c.P
 	wsContract(c, "C07.R5")
+	c07DialReleased(c)
+	c07Spliced(c)
 	c.floor("C07.R1", 4)
 	nPairs := 0
 	for _, fn := range p.ModFuncs {
@@ -259,7 +261,7 @@ func runC07(c *Ctx) {
 
 func c07Adapter(c *Ctx) {
 	p := c.P
-	c.floor("C07.R2", 5)
+	c.floor("C07.R2", 8)
 	c.floor("C07.R3", 2)
 	readerF := p.Field("pkg/websocket", "Conn", "reader")
 	read := p.Func("pkg/websocket", "Conn.Read")
@@ -355,6 +357,83 @@ func c07Adapter(c *Ctx) {
 		ex, ok := rv[0].(*ssa.Extract)
 		c.check(ok && ex.Tuple == ssa.Value(rd) && ex.Index == 0, "C07.R2", fmt.Sprintf("%s/returns-readers-count[%d]", fnName(read), k), r.Pos(), "the byte count returned is the retained reader's count, unchanged", "Read returns a byte count that is not the count reported by the message reader")
 	}
+	// bytes read are reported; an exhausted message is never mistaken for the end of the stream; the loop makes progress
+	rdN := func(v ssa.Value) bool {
+		ex, ok := v.(*ssa.Extract)
+		return ok && ex.Tuple == ssa.Value(rd) && ex.Index == 0
+	}
+	isEOF := func(v ssa.Value) bool { return strings.HasSuffix(path(v), "G:EOF") }
+	zero := func(v ssa.Value) bool { k, ok := constInt(v); return ok && k == 0 }
+	var nilStores []ssa.Instruction
+	allInstrs(read, func(i ssa.Instruction) {
+		if st, ok := i.(*ssa.Store); ok && isNilConst(st.Val) {
+			if _, ok := addrOfField(st.Addr, readerF); ok {
+				nilStores = append(nilStores, i)
+			}
+		}
+	})
+	isNilStore := func(i ssa.Instruction) bool {
+		for _, s := range nilStores {
+			if s == i {
+				return true
+			}
+		}
+		return false
+	}
+	paths, complete := enumPaths(rd, isNilStore, nil, nil, 400)
+	badCount, badEOF, badSpin := "", "", ""
+	if !complete {
+		badCount = "too many paths"
+	}
+	for _, pa := range paths {
+		if infeasible(pa.facts) {
+			continue
+		}
+		gotBytes := anyFact(pa.facts, func(f Fact) bool { return cmpFact(f, token.GTR, rdN, zero) || cmpFact(f, token.NEQ, rdN, zero) })
+		noBytes := anyFact(pa.facts, func(f Fact) bool { return cmpFact(f, token.LEQ, rdN, zero) || cmpFact(f, token.EQL, rdN, zero) })
+		msgEOF := anyFact(pa.facts, func(f Fact) bool { return cmpFact(f, token.EQL, rdErr, isEOF) })
+		switch pa.endWhy {
+		case "return":
+			rv := returnValues(pa.end.(*ssa.Return))
+			if k, isK := constInt(rv[0]); isK && k == 0 && !noBytes {
+				badCount = "a path on which the message reader may have delivered bytes returns a count of 0 at " + p.pos(pa.end.Pos()) + " (facts " + factStrings(pa.facts) + ")"
+			}
+			_ = gotBytes
+			// the error returned on a path where the message ended must not be that EOF
+			if msgEOF {
+				ev := rv[1]
+				if !isNilConst(ev) {
+					// a φ is resolved by the edge taken; here: any non-nil value that may be the reader's error
+					if rdErr(strip(ev)) {
+						badEOF = "the end of one WebSocket message is returned as io.EOF at " + p.pos(pa.end.Pos())
+					}
+					if ph, ok := ev.(*ssa.Phi); ok {
+						// which edge does this path take? the last predecessor on the path is not recorded: be exact only when every non-nil input is the reader's error
+						allNil := true
+						for k2, e := range ph.Edges {
+							if isNilConst(e) {
+								continue
+							}
+							ef := fs.OnEdge(ph.Block().Preds[k2], ph.Block())
+							if rdErr(strip(e)) && !anyFact(ef, func(f Fact) bool { return cmpFact(f, token.NEQ, rdErr, isEOF) }) && !anyFact(ef, func(f Fact) bool { return cmpFact(f, token.EQL, rdErr, isNilConst) }) {
+								allNil = false
+							}
+						}
+						if !allNil {
+							badEOF = "the end of one WebSocket message can be returned as io.EOF at " + p.pos(pa.end.Pos())
+						}
+					}
+				}
+			}
+		case "loop":
+			if len(pa.seen) == 0 {
+				badSpin = "the read loop repeats at " + p.pos(pa.end.Pos()) + " while keeping the reader that just reported it is exhausted or failed (facts " + factStrings(pa.facts) + ")"
+			}
+		}
+	}
+	c.check(badCount == "", "C07.R2", fnName(read)+"/delivered-bytes-are-reported", rd.Pos(), "a return of 0 bytes only where the reader delivered none", badCount+": bytes already copied into the caller's buffer are dropped from the stream")
+	c.check(badEOF == "", "C07.R2", fnName(read)+"/message-end-is-not-stream-end", rd.Pos(), "io.EOF of a message reader is never returned", badEOF+": the tunnelled connection is cut after the first message")
+	c.check(badSpin == "", "C07.R2", fnName(read)+"/loop-drops-exhausted-reader", rd.Pos(), "the loop repeats only after c.reader = nil", badSpin+": Read spins forever")
 	// ---- Write ----
 	wfs := computeFacts(write)
 	var wm *ssa.Call
@@ -1077,3 +1156,227 @@ func flowsPhi(v, target ssa.Value) bool {
 }
 
 var _ = types.Typ
+
+// c07DialReleased (C07.R6): a connection dialled to an upstream by the TCP
+// route is released on every path: a deferred or direct Close, or a hand-over
+// to the copy pair (which closes both legs). Without it a failed WebSocket
+// upgrade leaks the upstream leg (the listener keeps an accepted, idle stream).
+func c07DialReleased(c *Ctx) {
+	p := c.P
+	c.floor("C07.R6", 1)
+	for _, fn := range pkgFuncs(p, "server/proxy") {
+		if strings.HasSuffix(fn.Name(), "dialUpstream") {
+			continue // the transport owns what its dial hook returns
+		}
+		allInstrs(fn, func(i ssa.Instruction) {
+			cl, ok := i.(*ssa.Call)
+			if !ok || !cl.Call.IsInvoke() || cl.Call.Method.Name() != "Dial" {
+				return
+			}
+			var conn, errv ssa.Value
+			for _, r := range *cl.Referrers() {
+				if ex, ok := r.(*ssa.Extract); ok {
+					if ex.Index == 0 {
+						conn = ex
+					} else {
+						errv = ex
+					}
+				}
+			}
+			if conn == nil || errv == nil {
+				return
+			}
+			c.analysed(fnName(fn))
+			releases := func(in ssa.Instruction) bool {
+				cc := callCommon(in)
+				if cc == nil {
+					return false
+				}
+				if cc.IsInvoke() && cc.Method.Name() == "Close" && strip(cc.Value) == conn {
+					return true
+				}
+				if !cc.IsInvoke() {
+					for _, a := range cc.Args {
+						if strip(a) == conn {
+							if f := cc.StaticCallee(); f != nil && closesParam(f, cc, conn) {
+								return true
+							}
+						}
+					}
+				}
+				return false
+			}
+			paths, complete := enumPaths(cl, releases, nil, func(pa *fpath) bool { return len(pa.seen) > 0 }, 400)
+			bad := ""
+			if !complete {
+				bad = "too many paths"
+			}
+			for _, pa := range paths {
+				if len(pa.seen) > 0 || pa.endWhy == "panic" {
+					continue
+				}
+				if anyFact(pa.facts, func(f Fact) bool {
+					return cmpFact(f, token.NEQ, func(v ssa.Value) bool { return strip(v) == errv }, isNilConst)
+				}) {
+					continue // the dial failed: nothing to release
+				}
+				bad = "a path after a successful Dial ends at " + p.pos(pa.end.Pos()) + " without closing the upstream connection or handing it to the copy pair"
+			}
+			c.check(bad == "", "C07.R6", fnName(fn)+"/dialled-leg-released", cl.Pos(), "closed (deferred or direct) or handed to the copy pair on every path", bad)
+		})
+	}
+}
+
+// closesParam: callee closes (directly, deferred, or in a goroutine it waits for) the parameter bound to v.
+func closesParam(f *ssa.Function, cc *ssa.CallCommon, v ssa.Value) bool {
+	idx := -1
+	_, args := recvAndArgs(cc)
+	off := len(cc.Args) - len(args)
+	for i, a := range cc.Args {
+		if strip(a) == v {
+			idx = i
+		}
+	}
+	_ = off
+	if idx < 0 || idx >= len(f.Params) {
+		return false
+	}
+	pv := f.Params[idx]
+	found := false
+	for _, g := range withAnon(f) {
+		allInstrs(g, func(in ssa.Instruction) {
+			c2 := callCommon(in)
+			if c2 == nil || !c2.IsInvoke() || c2.Method.Name() != "Close" {
+				return
+			}
+			x := strip(c2.Value)
+			if x == ssa.Value(pv) {
+				found = true
+			}
+			// captured by a goroutine closure
+			if fv, ok := x.(*ssa.FreeVar); ok {
+				for k, b := range g.FreeVars {
+					if b == fv {
+						if mc := makeClosureOf(g); mc != nil && k < len(mc.Bindings) {
+							if bindsParam(mc.Bindings[k], pv) {
+								found = true
+							}
+						}
+					}
+				}
+			}
+			if u, ok := x.(*ssa.UnOp); ok {
+				if fv, ok := u.X.(*ssa.FreeVar); ok {
+					for k, b := range g.FreeVars {
+						if b == fv {
+							if mc := makeClosureOf(g); mc != nil && k < len(mc.Bindings) {
+								if bindsParam(mc.Bindings[k], pv) {
+									found = true
+								}
+							}
+						}
+					}
+				}
+			}
+		})
+	}
+	return found
+}
+
+func makeClosureOf(g *ssa.Function) *ssa.MakeClosure {
+	par := g.Parent()
+	if par == nil {
+		return nil
+	}
+	var out *ssa.MakeClosure
+	allInstrs(par, func(i ssa.Instruction) {
+		if mc, ok := i.(*ssa.MakeClosure); ok && mc.Fn == ssa.Value(g) {
+			out = mc
+		}
+	})
+	return out
+}
+
+// bindsParam: the closure binding is the parameter, or the cell it was spilled to.
+func bindsParam(b ssa.Value, pv *ssa.Parameter) bool {
+	if strip(b) == ssa.Value(pv) {
+		return true
+	}
+	if al, ok := b.(*ssa.Alloc); ok {
+		for _, r := range *al.Referrers() {
+			if st, ok := r.(*ssa.Store); ok && st.Addr == ssa.Value(al) && strip(st.Val) == ssa.Value(pv) {
+				return true
+			}
+		}
+	}
+	return false
+}
+
+// c07Spliced (C07.R7): once the TCP route has both legs - the dialled upstream
+// connection and the upgraded downstream WebSocket - every path hands exactly
+// those two to the copy pair.
+func c07Spliced(c *Ctx) {
+	p := c.P
+	fn := p.Func("server/proxy", "TCPProxy.ServeHTTP")
+	fwd := p.Func("server/proxy", "TCPProxy.forward")
+	if fn == nil || fwd == nil {
+		c.fail("C07.anchor", "TCPProxy.ServeHTTP/forward", token.NoPos, "not found")
+		return
+	}
+	c.analysed(fnName(fn))
+	var dial, upg *ssa.Call
+	allInstrs(fn, func(i ssa.Instruction) {
+		cl, ok := i.(*ssa.Call)
+		if !ok {
+			return
+		}
+		if cl.Call.IsInvoke() && cl.Call.Method.Name() == "Dial" {
+			dial = cl
+		}
+		if strings.HasSuffix(commonName(&cl.Call), "gorilla/websocket.Upgrader).Upgrade") {
+			upg = cl
+		}
+	})
+	if dial == nil || upg == nil {
+		c.fail("C07.R7", fnName(fn)+"/legs", fn.Pos(), "the upstream Dial or the downstream Upgrade was not found")
+		return
+	}
+	ext := func(call *ssa.Call, idx int) func(ssa.Value) bool {
+		return func(v ssa.Value) bool {
+			ex, ok := strip(v).(*ssa.Extract)
+			return ok && ex.Tuple == ssa.Value(call) && ex.Index == idx
+		}
+	}
+	isSplice := func(i ssa.Instruction) bool {
+		cc := callCommon(i)
+		if cc == nil || cc.StaticCallee() != fwd {
+			return false
+		}
+		_, args := recvAndArgs(cc)
+		if len(args) != 2 || !ext(dial, 0)(args[0]) {
+			return false
+		}
+		// downstream = adapter(New) of the upgraded connection
+		mi := strip(args[1])
+		if m, ok := mi.(*ssa.MakeInterface); ok {
+			mi = strip(m.X)
+		}
+		nc, ok := mi.(*ssa.Call)
+		return ok && strings.HasSuffix(commonName(&nc.Call), "pkg/websocket.New") && ext(upg, 0)(nc.Call.Args[0])
+	}
+	paths, complete := enumPaths(upg, isSplice, nil, func(pa *fpath) bool { return len(pa.seen) > 0 }, 200)
+	bad := ""
+	if !complete {
+		bad = "too many paths"
+	}
+	for _, pa := range paths {
+		if len(pa.seen) > 0 || pa.endWhy == "panic" {
+			continue
+		}
+		if anyFact(pa.facts, func(f Fact) bool { return cmpFact(f, token.NEQ, ext(upg, 1), isNilConst) }) {
+			continue // the upgrade failed and has answered the client
+		}
+		bad = "after a successful upgrade a path ends at " + p.pos(pa.end.Pos()) + " without starting the copy pair on (dialled upstream, upgraded downstream)"
+	}
+	c.check(bad == "", "C07.R7", fnName(fn)+"/legs-are-spliced", upg.Pos(), "forward(dialled upstream conn, New(upgraded conn)) on every path after a successful upgrade", bad+": the tunnel is established but carries no bytes")
+}
